@@ -44,3 +44,112 @@ Section Polar.
     | Ok Ui => Ok (matmul3 M Ui, Um)
     end.
 End Polar.
+
+(* ---------------------------------------------------------------------- *)
+(* pydrex.diagnostics.elasticity_components for ONE Voigt matrix, over the *)
+(* two eigh oracles (columns of Ed / Ev = eigenvectors of d_ij / v_ij).    *)
+(* ---------------------------------------------------------------------- *)
+Section Decomp.
+  Context {F : Num}.
+
+  Definition tab21 (f : nat -> F) : arr F := mk_arr zero (map f (seq 0 21)).
+  Definition vsub21 (a b : arr F) : arr F := tab21 (fun k => a k - b k).
+  (* la.norm of a 21-vector *)
+  Definition norm21 (a : arr F) : F :=
+    nsqrt (fold_left (fun s k => s + a k * a k) (seq 0 21) zero).
+  Definition col (E : arr F) (j : nat) : arr F := mk_arr zero [E j; E (3 + j)%nat; E (6 + j)%nat].
+  Definition dot3 (a b : arr F) : F := a 0%nat * b 0%nat + a 1%nat * b 1%nat + a 2%nat * b 2%nat.
+  Definition norm3 (a : arr F) : F := nsqrt (dot3 a a).
+  Definition ofnat (n : nat) : F := ofZ (Z.of_nat n).
+
+  Definition trace3 (a : arr F) : F := a 0%nat + a 4%nat + a 8%nat.
+  Definition bulk_shear (vm : arr F) : F * F :=
+    let '(d, v) := k_voigt_decompose vm in
+    let K := trace3 d / ofZ 9 in
+    let G := (trace3 v - ofZ 3 * K) / ofZ 10 in (K, G).
+
+  Definition iso_vector (K G : F) : arr F :=
+    let a := K + ofZ 4 * G / ofZ 3 in
+    let b := nsqrt (ofZ 2) * (K - ofZ 2 * G / ofZ 3) in
+    let c := ofZ 2 * G in
+    mk_arr zero [a; a; a; b; b; b; c; c; c; zero; zero; zero; zero; zero; zero; zero; zero; zero; zero; zero; zero].
+
+  (* smallest_angle (degrees, in [0, 90]) between unit-ish vectors *)
+  Definition clip1 (x : F) : F := if ltb x (opp one) then opp one else if ltb one x then one else x.
+  Definition smallest_angle (v a : arr F) : F :=
+    let ang := nacos (clip1 (dot3 v a / (norm3 v * norm3 a))) * (ofZ 180 / npi) in
+    if ltb (ofZ 90) ang then ofZ 180 - ang else ang.
+
+  (* inner loop over j = 0,1,2: state (angle, column, signed index as a float) *)
+  Definition pair_step (Ed Ev : arr F) (i : nat) (st : F * nat * F) (j : nat) : F * nat * F :=
+    let '(angle, jc, w) := st in
+    let dot := dot3 (col Ed i) (col Ev j) in
+    let a := smallest_angle (col Ed i) (col Ev j) in
+    if ltb a angle then
+      let w' := if eqb dot zero then ofnat j
+                else (if ltb zero dot then one else opp one) * ofnat j in
+      (a, j, w')
+    else st.
+
+  Definition sccs_col (Ed Ev : arr F) (i : nat) : arr F :=
+    let '(_, jc, w) := fold_left (pair_step Ed Ev i) [0; 1; 2]%nat (ofZ 10, 0%nat, zero) in
+    (* int(abs(index_vij)) = jc *)
+    let d := col Ed i in let v := col Ev jc in
+    let u := mk_arr zero [(d 0%nat + w * v 0%nat) / ofZ 2; (d 1%nat + w * v 1%nat) / ofZ 2;
+                          (d 2%nat + w * v 2%nat) / ofZ 2] in
+    let n := norm3 u in
+    mk_arr zero [u 0%nat / n; u 1%nat / n; u 2%nat / n].
+
+  (* unpermuted_SCCS[:, i] = sccs_col i;  permuted[:, j] = unpermuted[:, (i+j) mod 3];
+     the rotation passed to `rotate` is permuted.transpose(): row j = column (i+j) mod 3 *)
+  Definition sccs_rotation (Ed Ev : arr F) (i : nat) : arr F :=
+    let c0 := sccs_col Ed Ev (i mod 3) in
+    let c1 := sccs_col Ed Ev ((i + 1) mod 3) in
+    let c2 := sccs_col Ed Ev ((i + 2) mod 3) in
+    mk_arr zero [c0 0%nat; c0 1%nat; c0 2%nat; c1 0%nat; c1 1%nat; c1 2%nat; c2 0%nat; c2 1%nat; c2 2%nat].
+
+  (* the five norms of one candidate frame + distance to the hexagonal projection *)
+  Definition frame_parts (vm iso : arr F) (Rt : arr F) : res (F * (F * F * F * F * F)) :=
+    let rv := k_voigt_matrix_to_vector
+                (k_elastic_tensor_to_voigt (rotate4 (k_voigt_to_elastic_tensor vm) Rt)) in
+    let mono := k_mono_project rv in
+    let ortho := k_ortho_project mono in
+    let tetr := k_tetr_project ortho in
+    match k_hex_project tetr with
+    | Err e => Err e
+    | Ok hex =>
+        Ok (norm21 (vsub21 rv hex),
+            (norm21 (vsub21 rv mono), norm21 (vsub21 mono ortho), norm21 (vsub21 ortho tetr),
+             norm21 (vsub21 tetr hex), norm21 (vsub21 hex iso)))
+    end.
+
+  (* returns [K; G; aniso; hex; tetr; ortho; mono; tric; axis(3)];
+     Err NonFinite when no candidate frame beats the initial distance (outputs stay np.empty) *)
+  Definition elasticity_components1 (M Ed Ev : arr F) : res (list F) :=
+    let vm := k_upper_tri_to_symmetric_6 M in
+    let '(K, G) := bulk_shear vm in
+    let iso := iso_vector K G in
+    let x := k_voigt_matrix_to_vector vm in
+    let nx := norm21 x in
+    let aniso := norm21 (vsub21 x iso) / nx * ofZ 100 in
+    let step (st : res (F * option (list F))) (i : nat) : res (F * option (list F)) :=
+      match st with
+      | Err e => Err e
+      | Ok (dist, best) =>
+          let Rt := sccs_rotation Ed Ev i in
+          match frame_parts vm iso Rt with
+          | Err e => Err e
+          | Ok (delta, (tric, mono, ortho, tetr, hex)) =>
+              if ltb delta dist then
+                let pc := ofZ 100 / nx in
+                Ok (delta, Some [hex * pc; tetr * pc; ortho * pc; mono * pc; tric * pc;
+                                 Rt 6%nat; Rt 7%nat; Rt 8%nat])
+              else Ok (dist, best)
+          end
+      end in
+    match fold_left step [0; 1; 2]%nat (Ok (nx, None)) with
+    | Err e => Err e
+    | Ok (_, None) => Err NonFinite
+    | Ok (_, Some l) => Ok (K :: G :: aniso :: l)
+    end.
+End Decomp.
